@@ -302,6 +302,29 @@ def const_matches_literal(src, lit):
         return False
 
 
+def _prim_default(s):
+    """Literal of `Default::default()` for a primitive type (or a field of a tuple of primitives), else None."""
+    PR = {"bool": "false", "f32": "0.0", "f64": "0.0", "char": None}
+    def one(t):
+        t = t.strip()
+        if t in PR:
+            return PR[t]
+        if re.match(r"^[iu](8|16|32|64|128|size)$", t):
+            return "0"
+        return None
+    if s[0] == "call":
+        m = re.match(r"^<([a-z0-9]+) as std::default::Default>::default$", str(s[1]))
+        return one(m.group(1)) if m else None
+    if s[0] == "default_field":
+        ty = str(s[1] or "")
+        m = re.match(r"^\((.*)\)$", ty)
+        if m and re.match(r"^\d+$", str(s[2])):
+            parts = [x for x in m.group(1).split(",") if x.strip()]
+            i = int(s[2])
+            return one(parts[i]) if i < len(parts) else None
+    return None
+
+
 def run(facts, tier, ctx):
     out = []
     if "uses" not in facts.raw:
@@ -423,6 +446,10 @@ def run(facts, tier, ctx):
                     lit = dd[1]
                     if lit == "None":
                         ok = s[0] == "agg" and s[2] == "None"
+                    elif s[0] in ("default_field", "call") and _prim_default(s) is not None:
+                        # `<bool as Default>::default()` / a field of `<(bool, usize)>::default()`: the language's zero value
+                        pd = _prim_default(s)
+                        ok = pd == lit or (pd in ("0", "0.0") and re.match(r"^0(\.0*)?$", lit) is not None)
                     elif s[0] == "const":
                         if fld["name"] == "multithread" and "feature" in fld["doc"]:
                             ok = const_matches_literal(s, "true" if par else "false")
